@@ -1,4 +1,4 @@
-CONSTANTS N = 5 W <- W11111 None <- NoneV MaxSeq = 5 MaxEv = 22 Forkers <- NoForkers HeadsOnly = TRUE LazyFrames = FALSE MaxOthers = 4
+CONSTANTS N = 5 W <- W11111 None <- NoneV Rule <- StdRule MaxSeq = 5 MaxEv = 22 Forkers <- NoForkers HeadsOnly = TRUE LazyFrames = FALSE MaxOthers = 4
 SPECIFICATION Spec
 INVARIANTS NoTie
 CHECK_DEADLOCK FALSE
